@@ -22,4 +22,13 @@
                  'determinism of engine, externals and custom functions',
                  '*_js theorems (Proofs/PipelineJs.v): evaluator-side caches = C20 jsstate, hypotheses '
                  'discharged from C20 + C02; modelling variables jscalls / js_of / matches / cf_of and the '
-                 'pipeline-level F6 guard (jscalls_wf, jscalls_stable) remain']}
+                 'pipeline-level F6 guard (jscalls_wf, jscalls_stable) remain',
+                 'F29 guard wherever JavaScript enters (the *_js theorems): scripts create no global '
+                 'bindings - no top-level let/const/class/var/function, no implicit globals, no mutation of '
+                 'built-ins (known finding F29, witnesses under replays/corpus/C13/f29_*.json)',
+                 'NOT proved (compared only): record independence for the hierarchical readers (csv2 / '
+                 "fixedlength2 / EDI occurrence counters) - the composition with C05's machine "
+                 '(deliveries(A++B) = deliveries(A) ++ deliveries(B) at an instance boundary) is not done; '
+                 'the flat-record model of Model/Pipeline.v and the Go transcript algebra cover those '
+                 'formats only observationally; target-filter evaluation per record (MatchAny as a pure '
+                 'function of the record, C10-r42 class) is covered by the Go oracle only']}
